@@ -186,7 +186,7 @@ def run(tier="quick", seed=0, pid="C12"):
                 violations.append({
                     "name": f"bounded:history_independent:{name}", "witness": f"spec={name};kind=result_depends_on_history",
                     "detail": f"request {req!r} after {len(history) - 1} earlier requests: {what}; on a new spec object: {wanted}",
-                    "script": replay_script(name, text, minimise(text, history))})
+                    "script": replay_script(name, text, minimise(text, history) if len(violations) < 3 else list(history))})
         if len(samples) < 8:
             samples.append({"spec": name, "requests": seq_len, "words": len(pool), "starts": starts})
     return {
